@@ -70,9 +70,9 @@ type vWorld struct {
 	ops []vOp
 
 	// fault injection
-	faultBudget int    // remaining faults that may still be injected
-	faultKinds  int    // number of error kinds to choose from (1 = server error only)
-	crashAt     bool   // if set, an injected fault is a crash (sentinel panic) instead of an error
+	faultBudget int  // remaining faults that may still be injected
+	faultKinds  int  // number of error kinds to choose from (1 = server error only)
+	crashAt     bool // if set, an injected fault is a crash (sentinel panic) instead of an error
 	faulted     []string
 	uidSeq      int
 	lost        bool // the last injected failure was a lost response: the write was applied
@@ -166,7 +166,7 @@ type vCoreV1 struct {
 	w *vWorld
 }
 
-func (c *vCoreV1) Pods(ns string) corev1client.PodInterface { return &vPods{w: c.w, ns: ns} }
+func (c *vCoreV1) Pods(ns string) corev1client.PodInterface     { return &vPods{w: c.w, ns: ns} }
 func (c *vCoreV1) Events(ns string) corev1client.EventInterface { return nil }
 func (c *vCoreV1) PersistentVolumeClaims(ns string) corev1client.PersistentVolumeClaimInterface {
 	return &vPVCs{w: c.w, ns: ns}
@@ -269,6 +269,13 @@ func (p *vPods) Patch(ctx context.Context, name string, pt types.PatchType, data
 	op := p.w.record(vOp{verb: "pod.patch", name: name, patch: string(data), write: true})
 	if err := p.w.fault("pod.patch", "pods", name); err != nil {
 		op.failed = true
+		if apierrors.IsNotFound(err) {
+			// NotFound means what it says: the pod has disappeared in the meantime
+			if i := p.find(name); i >= 0 {
+				p.w.apiPods = append(p.w.apiPods[:i:i], p.w.apiPods[i+1:]...)
+			}
+			op.applied = true
+		}
 		return nil, err
 	}
 	i := p.find(name)
